@@ -155,6 +155,7 @@ class DhtmlxGantt:
                         'type': "0"
                     })
 
+        # "</" must not appear inside <script>: a name containing </script> would end the script element
         return json.dumps(
             {
                 "data": data,
@@ -162,7 +163,7 @@ class DhtmlxGantt:
             },
             ensure_ascii=False,
             indent=2
-        )
+        ).replace('</', '<\\/')
 
     def to_html(self):
 
